@@ -38,6 +38,14 @@ CHECKS = {
    text="After each scenario (normal/multi-key, invalid, MOVED/ASK redirected, backend reset, backend silent then closed, connection limit, client disconnect with requests in flight, stop with open connections; TCP: traffic, dial failures, host removal, limit, stop) the equations cx_active==0, cx_total==cx_destroy_total, rq_total==success+failure, per-command total==success+error hold for downstream and upstream, and no gauge wraps below zero at any sample.",
    note="Trusted: quiescence detector (simulated nodes report received==answered; two identical stat dumps >= 50 ms apart); a dump that never stabilises is inconclusive, not a violation.",
    ref="DESIGN.md section 4 C20"),
+ "C19": dict(level="exploration", technique="step-relation oracle over prefix-replayed counter snapshots; per-key conservation under concurrent writers/latchers; four report assertions on the collector driven with a virtual clock (also ticking inside one collect) with concurrent readers; HOTKEY reply parsed end to end; -race children with scoped reports",
+   text="Counter: for PRNG access/latch/free sequences on capacities {0,1,2,3,8,50,255} every consecutive pair of tracked-state snapshots obeys the LFU step relation (exact +1, admission, eviction of a lowest-count key, size bound); concurrently each access lands in exactly one latch window. Collector and real HOTKEY reply: never more keys than capacity, no duplicate, non-increasing heat, only accessed keys - after every step and in every concurrent reader sample.",
+   note="Trusted: prefix replay on a fresh counter observes the tracked state (Latch is destructive); the virtual minute clock hook. Race reports deciding only in proc/redis/hotkey/{counter,collector}.go.",
+   ref="DESIGN.md section 4 C19"),
+ "C15": dict(level="exploration", technique="step-wise model equation over the public host.Set API (object identity), join-point equation after concurrent histories (-race child, scope host/host.go), hysteresis automaton over a scripted checker driven round by round through the real monitor",
+   text="After every step of PRNG sequences of Add/Remove(fresh and known objects)/ReplaceAll/Mark* on current, removed and stale objects: Healthy() is exactly the healthy members of the preferred tier, address-sorted, duplicate-free; Random() is in it; Exist/Len agree; removed members are marked removed and never reported. The same equation at the join of concurrent writers/markers/readers. Health flips only after >= threshold consecutive contrary results and by threshold+1, any opposite result restarting the count.",
+   note="Assumes objects re-added after removal / marked before ever being members are outside the property. Trusted: the 60-line view oracle in cmd/vcheck/c15.go.",
+   ref="DESIGN.md section 4 C15"),
 }
 NOT_BUILT = "check not built yet in this session (design in DESIGN.md section 4)"
 
